@@ -1,0 +1,179 @@
+// This Source Code Form is subject to the terms of the Mozilla Public
+// License, v. 2.0. If a copy of the MPL was not distributed with this
+// file, You can obtain one at http://mozilla.org/MPL/2.0/.
+//
+// Copyright (c) DUSK NETWORK. All rights reserved.
+
+//! Verification hooks (feature `verif`, off by default).
+//!
+//! Read-only views of the constraint system and thin public wrappers over the
+//! in-crate seams the soundness tests already use (`range_check`,
+//! `add_point_gates`, `assert_torsion_free_gates`,
+//! `append_fixed_base_signed_digits`), so that an external property-based
+//! harness can play a malicious prover on an unchanged gate layout. Nothing
+//! here is reachable without the feature and nothing changes existing
+//! behaviour.
+
+use alloc::vec::Vec;
+
+use dusk_bls12_381::BlsScalar;
+use dusk_jubjub::{JubJubAffine, JubJubExtended};
+
+use super::constraint_system::Selector;
+use super::{Composer, Constraint, Witness, WitnessPoint};
+use crate::error::Error;
+
+/// One gate of the constraint system: the 11 selector values in the order
+/// `q_m, q_l, q_r, q_o, q_f, q_c, q_arith, q_range, q_logic, q_fixed, q_var`
+/// and the witness indexes on the wires `a, b, c, d`.
+#[derive(Debug, Clone, Copy, PartialEq, Eq)]
+pub struct VerifGate {
+    /// Selector values
+    pub selectors: [BlsScalar; 11],
+    /// Witness indexes wired to `a, b, c, d`
+    pub wires: [usize; 4],
+}
+
+/// A copy of everything a composer holds that determines the compiled circuit
+/// and the proof: gates, witness values, and public inputs sorted by row.
+#[derive(Debug, Clone, PartialEq, Eq)]
+pub struct VerifSnapshot {
+    /// Gates in row order
+    pub gates: Vec<VerifGate>,
+    /// Witness values by witness index
+    pub witnesses: Vec<BlsScalar>,
+    /// `(row, value)` of every public input, sorted by row
+    pub public_inputs: Vec<(usize, BlsScalar)>,
+}
+
+impl Composer {
+    /// Snapshot of gates, witness values and public inputs.
+    pub fn verif_snapshot(&self) -> VerifSnapshot {
+        let gates = self
+            .constraints
+            .iter()
+            .map(|g| VerifGate {
+                selectors: [
+                    g.q_m,
+                    g.q_l,
+                    g.q_r,
+                    g.q_o,
+                    g.q_f,
+                    g.q_c,
+                    g.q_arith,
+                    g.q_range,
+                    g.q_logic,
+                    g.q_fixed_group_add,
+                    g.q_variable_group_add,
+                ],
+                wires: [
+                    g.a.index(),
+                    g.b.index(),
+                    g.c.index(),
+                    g.d.index(),
+                ],
+            })
+            .collect();
+
+        let public_inputs = self
+            .public_input_indexes()
+            .into_iter()
+            .map(|row| (row, self.public_inputs[&row]))
+            .collect();
+
+        VerifSnapshot {
+            gates,
+            witnesses: self.witnesses.clone(),
+            public_inputs,
+        }
+    }
+
+    /// Number of allocated witnesses.
+    pub fn verif_witness_count(&self) -> usize {
+        self.witnesses.len()
+    }
+
+    /// Overwrite the value of an allocated witness. The gates are untouched:
+    /// this is what a malicious prover does to an honest circuit.
+    pub fn verif_set_witness(&mut self, witness: Witness, value: BlsScalar) {
+        self.witnesses[witness.index()] = value;
+    }
+
+    /// A [`Witness`] handle for an already allocated index.
+    pub fn verif_witness(&self, index: usize) -> Witness {
+        assert!(index < self.witnesses.len());
+        Witness::new(index)
+    }
+
+    /// A [`WitnessPoint`] from two allocated witnesses.
+    pub fn verif_witness_point(x: Witness, y: Witness) -> WitnessPoint {
+        WitnessPoint::new(x, y)
+    }
+
+    /// Append a gate with every selector given explicitly (same order as
+    /// [`VerifGate::selectors`]) and an optional public input.
+    pub fn verif_append_raw_gate(
+        &mut self,
+        selectors: [BlsScalar; 11],
+        public_input: Option<BlsScalar>,
+        wires: [Witness; 4],
+    ) {
+        let mut constraint = Constraint::new()
+            .set(Selector::Multiplication, selectors[0])
+            .set(Selector::Left, selectors[1])
+            .set(Selector::Right, selectors[2])
+            .set(Selector::Output, selectors[3])
+            .set(Selector::Fourth, selectors[4])
+            .set(Selector::Constant, selectors[5])
+            .set(Selector::Arithmetic, selectors[6])
+            .set(Selector::Range, selectors[7])
+            .set(Selector::Logic, selectors[8])
+            .set(Selector::GroupAddFixedBase, selectors[9])
+            .set(Selector::GroupAddVariableBase, selectors[10])
+            .a(wires[0])
+            .b(wires[1])
+            .c(wires[2])
+            .d(wires[3]);
+        if let Some(pi) = public_input {
+            constraint = constraint.public(pi);
+        }
+
+        self.append_custom_gate(constraint);
+    }
+
+    /// The runtime-width range check behind `component_range_bits`.
+    pub fn verif_range_check(&mut self, value: Witness, num_bits: usize) {
+        assert!(num_bits <= 256);
+        self.range_check(value, num_bits);
+    }
+
+    /// The untyped curve-addition gates behind `component_add_point`.
+    pub fn verif_add_point_gates(
+        &mut self,
+        a: WitnessPoint,
+        b: WitnessPoint,
+    ) -> WitnessPoint {
+        self.add_point_gates(a, b)
+    }
+
+    /// The gates behind `assert_torsion_free_point` with a caller-chosen
+    /// auxiliary point `Q`.
+    pub fn verif_assert_torsion_free_gates(
+        &mut self,
+        point: WitnessPoint,
+        q: JubJubAffine,
+    ) {
+        self.assert_torsion_free_gates(point, q);
+    }
+
+    /// The gates behind `component_mul_generator` with caller-chosen signed
+    /// digits.
+    pub fn verif_fixed_base_signed_digits(
+        &mut self,
+        jubjub: Witness,
+        generator: JubJubExtended,
+        signed_digits: &[i8; 256],
+    ) -> Result<WitnessPoint, Error> {
+        self.append_fixed_base_signed_digits(jubjub, generator, signed_digits)
+    }
+}
